@@ -2,6 +2,7 @@ package compiler
 
 import (
 	"fmt"
+	"sort"
 
 	"github.com/grafana/cog/internal/ast"
 )
@@ -26,8 +27,19 @@ func (pass *FieldsSetDefault) processObject(_ *Visitor, _ *ast.Schema, object as
 		return object, nil
 	}
 
+	// References are matched case-insensitively: several of them can match the
+	// same field. Go through them in a stable order, to ensure a consistent output.
+	fieldRefs := make([]FieldReference, 0, len(pass.DefaultValues))
+	for fieldRef := range pass.DefaultValues {
+		fieldRefs = append(fieldRefs, fieldRef)
+	}
+	sort.Slice(fieldRefs, func(i, j int) bool {
+		return fieldRefs[i].Package+"."+fieldRefs[i].Object+"."+fieldRefs[i].Field < fieldRefs[j].Package+"."+fieldRefs[j].Object+"."+fieldRefs[j].Field
+	})
+
 	for i, field := range object.Type.AsStruct().Fields {
-		for fieldRef, value := range pass.DefaultValues {
+		for _, fieldRef := range fieldRefs {
+			value := pass.DefaultValues[fieldRef]
 			if !fieldRef.Matches(object, field) {
 				continue
 			}
